@@ -296,8 +296,15 @@ func (r restServerProtocol) addProtocolRequestHeaders(meta requestMeta, headers 
 func (r restServerProtocol) extractProtocolResponseHeaders(statusCode int, headers http.Header) (responseMeta, responseEndUnmarshaller, error) {
 	contentType := headers.Get("Content-Type")
 	if statusCode/100 != 2 {
+		// The error body may be compressed, like any other response body.
+		compression := headers.Get("Content-Encoding")
+		headers.Del("Content-Encoding")
 		return responseMeta{
-				end: &responseEnd{httpCode: statusCode},
+				compression: compression,
+				end: &responseEnd{
+					httpCode:      statusCode,
+					wasCompressed: compression != "",
+				},
 			}, func(_ Codec, buf *bytes.Buffer, end *responseEnd) {
 				if err := httpErrorFromResponse(statusCode, contentType, buf); err != nil {
 					end.err = err
